@@ -25,18 +25,23 @@ TStep == l <= Len(T) /\ Step /\ UNCHANGED <<tid, l>>
 NoEscape(toks) == \A k \in 1..Len(toks) : toks[k].k = "c"
 OnlySgr(toks) == \A k \in 1..Len(toks) : toks[k].k \in {"c", "sgr"}
 
+\* claim = "rewire": the output was reconfigured (set_stream / set_formatter) before this rendering; the event carries
+\* the formatter kind fk and the stream's ANSI support sa now in place, and whether a decorated rendering is expected is
+\* decided here from that pair (the driver's col only starts the A-layer machine)
+Full(e) == e.claim \in {"all", "rewire"}
+ColOf(e) == IF e.claim = "rewire" THEN PDecorated(e.fk, e.sa) ELSE e.col
 Clauses(e) ==
   LET bal == Balanced(e.msg)
       ok == e.res = "ok"
-  IN /\ Check(tid, l, "P.markup.plain_clean", e.how, (ok /\ ~e.col) => NoEscape(e.toks))
+  IN /\ Check(tid, l, "P.markup.plain_clean", e.how, (ok /\ ~ColOf(e)) => NoEscape(e.toks))
      /\ Check(tid, l, "P.markup.text", e.how, bal => (ok /\ Strip(e.toks) = TextOf(e.msg)))
      \* claim = "text": an earlier message through the same formatter was not balanced (styles may still be open on
      \* it) - what carries over is not this property's subject, the text of a balanced message must be right all the same
      /\ Check(tid, l, "P.markup.codes", e.how,
-              (bal /\ e.col /\ e.claim = "all") => (OnlySgr(e.toks) /\ Fold(e.toks, {}) = PRender(e.msg, e.base)))
-     /\ Check(tid, l, "P.markup.reset", e.how, (bal /\ e.col /\ e.claim = "all") => FinalCodes(e.toks, {}) = {})
-     /\ Note(tid, l, "A.tokens", (ok /\ ~err /\ e.claim = "all") => e.toks = out)
-     /\ Note(tid, l, "A.error", e.claim = "all" => (ok = ~err))
+              (bal /\ ColOf(e) /\ Full(e)) => (OnlySgr(e.toks) /\ Fold(e.toks, {}) = PRender(e.msg, e.base)))
+     /\ Check(tid, l, "P.markup.reset", e.how, (bal /\ ColOf(e) /\ Full(e)) => FinalCodes(e.toks, {}) = {})
+     /\ Note(tid, l, "A.tokens", (ok /\ ~err /\ Full(e)) => e.toks = out)
+     /\ Note(tid, l, "A.error", Full(e) => (ok = ~err))
 
 TCompare ==
   /\ l <= Len(T) /\ (done \/ err)
